@@ -43,6 +43,10 @@ def only_err_from(f, start):
     r = f.reach(start, include_src=True)
     oks = ok_blocks(f) & r
     errs = err_blocks(f) & r
+    if oks and errs:
+        # Option / Result values built on the way decide the matches on them (`.find(..)` came back None, so `.map(..)` is None
+        # and `.ok_or_else(..)` is the error)
+        oks = q.const_skipping_paths(f, start, set(), ok_blocks(f)) | ({start} & ok_blocks(f))
     return bool(errs) and not oks
 
 
@@ -301,7 +305,7 @@ def run_cfg(ctx, p, cfg):
                 if blk["term"]["k"] == "switch" and blk["id"] in fn_.reachable_blocks():
                     si = SwitchInfo(fn_, blk["id"])
                     d = strip(si.discr)
-                    if d[0] == "discr" and d[1][0] == "phi" and any(x[0] == "agg" and x[2] == "None" for x in d[1][1]) and any(x[0] == "agg" and x[2] == "Some" and any(y[0] == "call" and y[1].endswith("::trim") for y in walk(x)) for x in d[1][1]):
+                    if d[0] == "discr" and d[1][0] == "phi" and any(x[0] == "agg" and x[2] == "None" for x in d[1][1]) and any(x[0] == "agg" and x[2] == "Some" and deep_strip(dict(x[3]).get("0", ("?",)))[0] == "call" and deep_strip(dict(x[3])["0"])[1].endswith("::trim") for x in d[1][1]):
                         nt = si.target_of("None")
                         tb = [t[0] for t in tables.string_key_tests(fn_)]
                         rr = fn_.reach(nt, avoid=set(tb), include_src=True)
